@@ -145,7 +145,14 @@ impl<'a> Remote<'a> {
                 waker.write(cx.waker().clone());
             });
 
-            self.header().state.finish_setting_waker::<true>();
+            state = self.header().state.finish_setting_waker::<true>();
+
+            // The task may have completed or been cancelled while we were in the critical
+            // section: the executor skips the wake-up in that case, so nobody would ever
+            // wake us. Re-check instead of going to sleep.
+            if state.has_result() || state.is_cancelled() {
+                continue;
+            }
 
             break Poll::Pending;
         }
